@@ -78,7 +78,7 @@ def _root_stable(prog: Program, ctx, cp, attr: str | None) -> tuple[bool, str]: 
     v = stores[0][1].value
     params = set(init.params())
     names = {x.id for x in ast.walk(v) if isinstance(x, ast.Name)}
-    param = next(iter(names & params), None)
+    param = next(iter(sorted((names & params) - {"self"})), None)
     dedicated = isinstance(v, ast.IfExp) and param is not None and norm(v.body) == param and norm(v.orelse) == "self.globals" and param != "global_data"
     if not dedicated:
         return False, f"self.{attr} = {norm(v)} is not `<own parameter> if given else self.globals`"
